@@ -162,6 +162,12 @@ PROPERTIES['C11'] = {
          claim='PairLexLess (key order of PolySet2) is a strict total order on pairs of non-NaN points', bounds='all finite doubles', targets=['boolean2_sweep.cpp PairLexLess']),
     dict(name='isinside', harness='c11_pred.cpp', entry='h_isinside', backends=['minisat'], timeout=300, unwind={'default': 2},
          claim='IsInside: Add <=> w>0, Intersect <=> w>1, EvenOdd <=> w odd, including negative windings', bounds='all int64 w', targets=['boolean2_sweep.cpp IsInside']),
+    dict(name='pending_add', harness='c11_pred.cpp', entry='h_pending_add', defs={'VF_PA': 2}, backends=['minisat', 'kissat'], timeout=1800, unwind={'default': 4, 'Rb_tree': 3}, recursion={'default': 3}, models=['rbtree.h', 'stdlib.h'], object_bits=12,
+         claim='SweepPass::PendingAdd (through Seed): after any two additions the multiplicity stored for every lex-ordered edge is the signed sum of the additions (reversed edges count negatively), zero-multiplicity edges are erased, no empty inner map remains, end points of stored edges are scheduled as events',
+         bounds='2 additions, end points on the 2x2 lattice {0,1}^2 (degenerate a == b included), multiplicities in [-2,2]; std::map/std::set through models/rbtree.h', targets=['boolean2_sweep.cpp SweepPass::PendingAdd, Seed, LexLess']),
+    dict(name='polyset_add', harness='c11_pred.cpp', entry='h_polyset_add', backends=['minisat', 'kissat'], timeout=1200, unwind={'default': 5, 'Rb_tree': 4}, recursion={'default': 3}, models=['rbtree.h', 'stdlib.h'], object_bits=12,
+         claim='PolySetAdd: after any three additions the multiplicity stored for every lex-ordered edge key is the signed sum of the additions, zero sums are erased, reversed keys are never stored',
+         bounds='3 additions, end points on the 2x2 lattice, multiplicities in [-2,2]; std::map through models/rbtree.h', targets=['boolean2_sweep.cpp PolySetAdd, PairLexLess']),
     dict(name='classify', harness='c11_pred.cpp', entry='h_classify', backends=['minisat', 'kissat'], timeout=900, unwind={'default': 4}, recursion={'default': 2}, defs={'VF_R': 3}, models=['rbtree.h'],
          claim='SweepPass::Classify (event point vs status edge) on the lattice: ENDS at the pending end; for a non-vertical edge spanning p.x, UNDER/OVER by the sign of the exact integer orientation and ON at the edge\'s own processed end; vertical edges by their y-range', bounds='integer lattice [-3,3]^2 for l, r, p (double arithmetic of the real Interpolate kernel)', targets=['boolean2_sweep.cpp SweepPass::Classify, YAtX', 'shared.h Interpolate']),
     dict(name='oninterior', harness='c11_pred.cpp', entry='h_oninterior', backends=['minisat', 'kissat'], timeout=600, unwind={'default': 2}, defs={'VF_R': 4},
@@ -185,6 +191,11 @@ PROPERTIES['C02'] = {
     dict(name='k02_tt_f16', harness='c02_kernels.cpp', entry='h_k02_tt', real='f16', defs={'VF_BND': 1024}, backends=['kissat', 'minisat'], timeout=900, unwind={'default': 13}, tiers=['quick', 'thorough'],
          claim='Kernel02<expandP=true,forward=true>: all harvested library assertions + |s02|<=1 + z02 not NaN when s02!=0', bounds='IEEE binary16 arithmetic, |x|<=1024, arbitrary finite normals, all 6 vertex numberings',
          targets=['boolean3.cpp Kernel02::operator(), Shadow01, LoadFaceEdges', 'shared.h Interpolate, Shadows']),
+    dict(name='k11_normal_scale_t', harness='c02_kernels.cpp', entry='h_k11scale_t', real='f16', defs={'VF_BND': 64, 'VF_TIECFG': 1}, backends=['kissat', 'minisat'], timeout=1500, unwind={'default': 13}, tiers=['quick', 'thorough'],
+         claim='Kernel11<expandP=true>: multiplying ALL vertex and face normals of both operands by 2 changes neither s11 nor the intersection point, for all operands including exact ties (the symbolic perturbation is a direction: every tie-break is homogeneous in the normals)',
+         bounds='5 concrete edge-pair configurations with exact ties (z tie at the crossing, x ties between end points, vertex on edge, sloped tie, and a tie-free control) - the perturbation only acts at ties - and ALL vertex and face normals arbitrary binary16 values |x| <= 64 (the positions, hence the ties, are exact in every format; sums and differences of normals keep their sign in every IEEE format, so counterexamples replay in double)', targets=['boolean3.cpp Kernel11::operator(), Shadow01', 'shared.h Intersect, Interpolate, Shadows, withSign']),
+    dict(name='k11_normal_scale_f', harness='c02_kernels.cpp', entry='h_k11scale_f', real='f16', defs={'VF_BND': 64, 'VF_TIECFG': 1}, backends=['kissat', 'minisat'], timeout=1500, unwind={'default': 13}, tiers=['thorough'],
+         claim='Kernel11<expandP=false>: same invariance under doubling all normals', bounds='same 5 tie configurations, all normals arbitrary binary16 values', targets=['boolean3.cpp Kernel11<false>']),
     dict(name='k02_ff_f16', harness='c02_kernels.cpp', entry='h_k02_ff', real='f16', defs={'VF_BND': 1024}, backends=['kissat', 'minisat'], timeout=900, unwind={'default': 13}, tiers=['thorough'],
          claim='Kernel02<false,false>: same contracts', bounds='binary16, |x|<=1024', targets=['boolean3.cpp Kernel02<false,false>']),
   ],
